@@ -1027,7 +1027,8 @@ class Simulation:
         self._backup_filename = self.get_backup_filename(out_fn)
 
         if out_fn.exists():
-            if skip_if_exists:
+            if skip_if_exists and not self.loaded_from_checkpoint:
+                # a run resumed from a checkpoint continues into the file it was loaded from
                 # no need to touch options: not yet converted to config
                 raise Skip('simulation output filename already exists', out_fn)
             if not overwrite_output and not self.loaded_from_checkpoint:
